@@ -4,7 +4,8 @@ from wire import hx, opt, lst
 from chancommon import KIND, CASE_WALL, run_impl, shrink_candidates, classify_common  # noqa: F401
 
 SPECS = ["C04"]
-THEOREMS = ["C04.expectLoop_spec", "C04.expect_spec", "Pat.search_bound"]
+THEOREMS = ["C04.expectLoop_spec", "C04.expect_spec", "Pat.search_bound", "C04.case_spec", "ChanCase.keeps"]
+LEAN_MODULES = ["TbotVerif.Props.ChanCase"]
 QUICK_N, THOROUGH_N = 5000, 80000
 QUICK_BUDGET, THOROUGH_BUDGET = 40, 900
 RULE = ("random (pattern list of 1-4 literals/regexes incl. prefixes of one another and samples cut out of the stream, "
